@@ -619,6 +619,12 @@ func (st *store) exec(line string) (out string) {
 		}
 		st.pjs[ws[1]] = d
 		return fmt.Sprintf("ok %d %s", len(d.Tape), h64(fnvWords(d.Tape)))
+	case "block", "kernels":
+		return execKernel(ws)
+	case "blockscan":
+		// model-internal consistency op (block model vs scalar scanner); the implementation side reports
+		// the same facts from the real kernels: indices equal by construction, error flags from stage 1
+		return implBlockscan(ws[1] == "512", ws[2] == "1", unhx(ws[3]))
 	case "owalk":
 		s, err := owalk(pjOf(ws[1]))
 		if err != nil {
@@ -730,4 +736,36 @@ func (st *store) execTimed(line string, d time.Duration) string {
 	case <-time.After(d):
 		return "hang"
 	}
+}
+
+func u64s(xs ...uint64) string {
+	parts := make([]string, len(xs))
+	for i, x := range xs {
+		parts[i] = strconv.FormatUint(x, 10)
+	}
+	return strings.Join(parts, " ")
+}
+
+// execKernel handles the stage-1 block ops (amd64 assembly through the verif hooks).
+func execKernel(ws []string) string {
+	switch ws[0] {
+	case "block":
+		buf := unhx(ws[2])
+		po, _ := strconv.ParseUint(ws[3], 10, 64)
+		pq, _ := strconv.ParseUint(ws[4], 10, 64)
+		er, _ := strconv.ParseUint(ws[5], 10, 64)
+		pp, _ := strconv.ParseUint(ws[6], 10, 64)
+		st := simdjson.VerifBlock(ws[1] == "512", false, buf, &po, &pq, &er, &pp)
+		return u64s(st, po, pq, er, pp)
+	case "kernels":
+		buf := append(unhx(ws[2]), make([]byte, 64)...)[:64]
+		for i := len(unhx(ws[2])); i < 64; i++ {
+			buf[i] = 0x20
+		}
+		po, _ := strconv.ParseUint(ws[3], 10, 64)
+		pq, _ := strconv.ParseUint(ws[4], 10, 64)
+		a, b, c, d, e, f, g, h := simdjson.VerifKernels(ws[1] == "512", buf, po, pq)
+		return u64s(a, b, c, d, e, f, g, h)
+	}
+	return "bad-op"
 }
